@@ -87,6 +87,10 @@ func init() {
 	add(hashed("s", refcar.CodecRaw, refcar.MhSha512, []byte("sha512 block"), 0))
 	add(hashed("t", refcar.CodecRaw, refcar.MhSha256, []byte("truncated"), 20))
 	add(hashed("k", refcar.CodecRaw, refcar.MhBlake2b256, []byte("blake"), 0))
+	// two identity CIDs whose digests share a 16-byte prefix (same width, same code: adjacent
+	// records of one index bucket that differ only late in the digest)
+	add(mk("ip1", refcar.CIDv1(refcar.CodecRaw, refcar.MhIdentity, []byte("prefix--prefix--B")), []byte("prefix--prefix--B")))
+	add(mk("ip2", refcar.CIDv1(refcar.CodecRaw, refcar.MhIdentity, []byte("prefix--prefix--A")), []byte("prefix--prefix--A")))
 	// identity CID longer than 40 bytes (over-long when MaxIndexCidSize = 40)
 	long := bytes.Repeat([]byte("X"), 60)
 	add(mk("X", refcar.CIDv1(refcar.CodecRaw, refcar.MhIdentity, long), long))
